@@ -735,6 +735,42 @@ def r16_8(U, rep, envs):
     raise AnalysisError('R16.8 found only %d environments with healthy ranges (floor 4: ant, hopper, humanoid, walker2d)' % nchecked)
 
 
+def r16_11(U, rep, envs):
+  """R16.11 [dataflow]: `state.metrics` is a LOG: step writes it (metrics.update(...)) and never reads it back.  The
+  auto-reset wrapper restores pipeline_state and obs only, and `state.replace` shares the metrics dict between a state and
+  its successor, so a reward / observation / termination computed from a logged value is not a function of (reset key,
+  actions) any more."""
+  n = 0
+  for ename, (modname, cname) in sorted(envs.items()):
+    for f in _env_methods(U, modname, cname):
+      if f.node.name != 'step':
+        continue
+      n += 1
+      params = [a.arg for a in f.node.args.args]
+      st = params[1] if len(params) > 1 else None
+      aliases = set()
+      for node in ast.walk(f.node):
+        if isinstance(node, ast.Assign) and isinstance(node.value, ast.Attribute) and dotted(node.value) == [st, 'metrics']:
+          aliases |= {t.id for t in node.targets if isinstance(t, ast.Name)}
+      bad = None
+      for node in ast.walk(f.node):
+        is_metrics = lambda e: (isinstance(e, ast.Attribute) and dotted(e) == [st, 'metrics']) or (isinstance(e, ast.Name) and e.id in aliases)
+        if isinstance(node, ast.Subscript) and is_metrics(node.value) and isinstance(node.ctx, ast.Load):
+          bad = node
+        if isinstance(node, ast.Call) and isinstance(node.func, ast.Attribute) and is_metrics(node.func.value) and node.func.attr in (
+            'get', 'items', 'values', 'pop', 'copy', '__getitem__'):
+          bad = node
+        if isinstance(node, ast.Dict) and any(k is None and is_metrics(v) for k, v in zip(node.keys, node.values)):
+          pass          # {**state.metrics, ...}: carrying the log over is not reading it into the dynamics
+      key = '%s.step' % cname
+      rep.check(bad is None, 'R16.11', 'metrics are write-only in ' + key,
+                lambda: '%s reads a logged value back (`%s`): reward / observation / termination would depend on state the wrappers '
+                'neither restore nor copy' % (key, ast.unparse(bad)[:80]), where=f.where(bad) if bad is not None else f.where(),
+                construct='no Load of state.metrics[...] / .get / .items / .values in step')
+  if n < 11:
+    raise AnalysisError('R16.11 saw only %d environment step functions (floor 11)' % n)
+
+
 class _Relabel:
   """Forwards obligations to a report under another rule label (a rule shared with another property)."""
 
@@ -776,4 +812,5 @@ def run(U, rep, tier):
   r16_5_6(U, rep, envs)
   r16_7(U, rep)
   r16_8(U, rep, envs)
+  r16_11(U, rep, envs)
   r16_1(U, rep, scope_r16_1(U, envs), tier)
